@@ -718,6 +718,9 @@ class C20(object):
         g = np.random.default_rng(rnd.getrandbits(48))
         vals, roles, promise = GEN[name](rnd, g, ctx.tier)
         cfg = enginea.draw_cfg(rnd, max_team=32)
+        if rnd.random() < 0.03:
+            cfg["team"] = rnd.choice([65, 72, 96, 128, 129, 192, 256])      # the big machines (OMP_NUM_THREADS beyond 64)
+            cfg["deliver"] = 0
         if vals.pop("_native_table", None):
             cfg["dset_cap"], cfg["strategy"], cfg["quantum"] = 0, "rtc", 50
         desc = {"entry": name, "vals": vals, "roles": roles, "promise": promise, "cfg": cfg,
